@@ -113,6 +113,7 @@ type frame struct {
 	lastOp   byte
 	lastPC   uint64
 	steps    int
+	static   bool // entered through STATICCALL, or below a frame that was
 }
 
 type pending struct{ sig, what string }
@@ -123,6 +124,7 @@ type tracker struct {
 	supplied uint64
 
 	steps, nframes, memGrow, below30 int64
+	staticSteps                      int64
 	maxDepthSeen, maxStackSeen       int
 	opHist                           [256]int64
 	faults                           map[string]int64
@@ -136,7 +138,7 @@ func (t *tracker) reset(supplied uint64) {
 	t.viol = t.viol[:0]
 	t.supplied = supplied
 	t.faults = map[string]int64{}
-	t.steps, t.nframes, t.memGrow, t.below30, t.inconsistent = 0, 0, 0, 0, 0
+	t.steps, t.nframes, t.memGrow, t.below30, t.inconsistent, t.staticSteps = 0, 0, 0, 0, 0, 0
 	t.maxDepthSeen, t.maxStackSeen = 0, 0
 	t.opHist = [256]int64{}
 }
@@ -210,6 +212,12 @@ func (t *tracker) onStep(depth int, pc uint64, op byte, gas uint64, stackLen int
 	}
 	f := &t.frames[n-1]
 	t.check(f, gas, memLen, "step")
+	if f.static {
+		t.staticSteps++
+		if !readOnly {
+			t.flag("C11:step:static-flag-lost", fmt.Sprintf("depth %d pc %d op 0x%02x runs with the read-only flag cleared although an ancestor frame was entered through STATICCALL", depth, pc, op))
+		}
+	}
 	f.lastGas, f.lastMem, f.lastOp, f.lastPC = gas, memLen, op, pc
 	f.steps++
 }
@@ -239,7 +247,8 @@ func (t *tracker) onFrame(enter bool, depth int, gas uint64, memLen int, err err
 		if depth != n+1 {
 			t.inconsistent++
 		}
-		t.frames = append(t.frames, frame{depth: depth, entryGas: gas, lastGas: gas})
+		static := n > 0 && (t.frames[n-1].static || t.frames[n-1].lastOp == opSTATICCALL)
+		t.frames = append(t.frames, frame{depth: depth, entryGas: gas, lastGas: gas, static: static})
 		return
 	}
 	if n == 0 || t.frames[n-1].depth != depth {
@@ -305,6 +314,7 @@ type harness struct {
 	defined [256]bool
 
 	minimized map[string]int
+	writeProt [2][256]bool // [operand prelude][opcode]: rejected with ErrWriteProtection directly below a STATICCALL
 	nDistinct int
 	baseDB    account.AccountDatabase
 	baseRoot  [3]common.Hash
@@ -338,6 +348,7 @@ func boot(r *mon.Run, cfg string) *harness {
 	vm.VerifStepHook = h.t.onStep
 	vm.VerifFrameHook = h.t.onFrame
 	h.probe()
+	h.probeWriters()
 	return h
 }
 
@@ -346,6 +357,26 @@ func (h *harness) cleanup() {
 		os.Chdir("/")
 		os.RemoveAll(h.scratch)
 	}
+}
+
+// probeWriters derives the state-modifying opcodes from the active jump table by
+// behaviour: every opcode, on nine zero / nine one operands, directly below a
+// STATICCALL; those that end with ErrWriteProtection are the write-flagged ones.
+func (h *harness) probeWriters() {
+	n := 0
+	for pre := 0; pre < 2; pre++ {
+		for op := 0; op < 256; op++ {
+			c := Case{Cfg: h.cfg, Kind: "call", Gas: 100000000, Miner: 1,
+				Code: forwarder(opSTATICCALL, new(big.Int).SetBytes(auxAAddr.Bytes()), 0),
+				Aux:  []Acct{{Addr: auxAAddr.GetHexString(), Code: writerCode(byte(op), pre)}}}
+			res := h.exec(&c)
+			if res.panicSite == "" && res.err == nil && h.t.faults["write-protection"] > 0 {
+				h.writeProt[pre][op] = true
+				n++
+			}
+		}
+	}
+	h.r.Max("max_write_flagged_"+h.cfg, int64(n))
 }
 
 // probe finds out which opcodes the jump table of this configuration defines.
@@ -630,6 +661,7 @@ func (h *harness) run(c *Case) {
 	r.Count("steps", t.steps)
 	r.Count("frames", t.nframes)
 	r.Count("memory_growth_steps", t.memGrow)
+	r.Count("static_frame_steps", t.staticSteps)
 	if t.below30 > 0 {
 		r.Count("p026_growth_steps_charged_below_30x", t.below30)
 	}
@@ -694,6 +726,26 @@ func (h *harness) expect(c *Case, res *execResult, kind string) {
 			bad(fmt.Sprintf("no inner frame ended with %s (frame endings: %v)", want, h.t.faults))
 		} else if len(res.ret) != 32 || !allZero(res.ret) {
 			bad(fmt.Sprintf("the failing sub-call reported success to its caller (flag %x)", res.ret))
+		}
+	case strings.HasPrefix(c.Expect, "chainstatic:"):
+		// a state-modifying opcode some non-static frames below a STATICCALL must be
+		// rejected exactly as it is directly below the STATICCALL (probed at boot)
+		var pre, op int
+		fmt.Sscanf(c.Expect, "chainstatic:%d:%d", &pre, &op)
+		if pre < 0 || pre > 1 || op < 0 || op > 255 || !h.writeProt[pre][op] {
+			r.Count("chainstatic_not_write_flagged", 1)
+			return
+		}
+		r.Count("expect_checked:chainstatic", 1)
+		sig := "C11:fault:static-chain:write-not-rejected"
+		switch {
+		case res.err != nil:
+			r.Violation("C11:fault:static-chain:outer-failed", fmt.Sprintf("outer frame failed: %v", res.err), h.witness(c, nil))
+		case h.t.faults["write-protection"] == 0 || len(res.ret) != 32 || !allZero(res.ret):
+			r.Violation(sig, fmt.Sprintf("opcode 0x%02x is rejected directly below a STATICCALL but not %s below it: innermost frame endings %v, flag returned up the chain %x",
+				op, c.Tag, h.t.faults, res.ret), h.witness(c, nil))
+		case res.root1 != res.root0:
+			r.Violation("C11:fault:static-chain:root-changed", fmt.Sprintf("the write was reported as rejected but the state root moved %x -> %x", res.root0[:6], res.root1[:6]), h.witness(c, nil))
 		}
 	case c.Expect == "depth-limit":
 		r.Count("expect_checked:depth-limit", 1)
@@ -1120,7 +1172,7 @@ func main() {
 			"single-opcode probes over an operand grid {0,1,31,32,33,0xffff,2^32-1,2^32,0x1fffffffe0,0x1fffffffe1,2^63-1,2^63,2^64-1,2^64,2^255,2^256-1} for every opcode with memory operands, " +
 			"charge-wrap seekers (memory sizes whose magnified gas charge wraps uint64), truncated PUSHn, self/mutual recursion through CALL/CALLCODE/DELEGATECALL/STATICCALL/AUTHCALL/CREATE/CREATE2, CREATE loops, EXP/KECCAK256/LOGn sweeps, " +
 			"the node's opcodes (PRINTF, STAKE, UNSTAKE, GETSTAKE, UNSTAKEALL, STAKENUM, AUTH incl. valid signatures, AUTHCALL, TLOAD/TSTORE, BLOBHASH, BASEFEE, BLOBBASEFEE, MCOPY, PUSH0) with arbitrary stack and memory, stack-limit fills for every stack-growing opcode, " +
-			"fault templates with the expected error kind, every precompile 1..18 directly and through CALL/CALLCODE/DELEGATECALL/STATICCALL/top-level Call with empty, 1-byte, valid (src/vm/testdata/precompiles), bit-flipped, truncated, extended, huge-length-field and random inputs; " +
+			"fault templates with the expected error kind, every opcode byte 1-3 non-static frames (CALL/DELEGATECALL/CALLCODE, mixed) below a STATICCALL judged against its behaviour directly below the STATICCALL,  every precompile 1..18 directly and through CALL/CALLCODE/DELEGATECALL/STATICCALL/top-level Call with empty, 1-byte, valid (src/vm/testdata/precompiles), bit-flipped, truncated, extended, huge-length-field and random inputs; " +
 			"each in the fork configurations {none, P014, P014+P022, P014+P022+P026} (one per child process). Non-trivial: the interpreter executed >= 1 step or a precompile was entered; distinct by hash of (config, kind, target, code, input, gas, value, helpers), recorded for the first 250k non-trivial cases of every child process.",
 		Assumptions: []string{
 			"the lower bound demanded for memory growth is the Yellow Paper cost C(w)=3w+w^2/512 of the growth (Rangers charges this, x30 or x900 under Proposal026): anything below it is a violation in every configuration",
@@ -1131,7 +1183,7 @@ func main() {
 		MustObserve: []string{"steps", "frames", "memory_growth_steps", "nontrivial_runs", "precompile_direct", "precompile_vectors_ok", "depth_limit_reached", "stack_1024_reached",
 			"fault:oog", "fault:invalid-opcode", "fault:stack-underflow", "fault:stack-overflow", "fault:bad-jump", "fault:write-protection", "fault:revert",
 			"failed_top_calls_root_compared", "max_table_defined_none", "max_table_defined_p014", "max_table_defined_p014p022", "max_table_defined_all",
-			"cases:rawcode", "cases:rawinit", "cases:weighted", "cases:memext", "cases:custom", "cases:recursion", "cases:precompile", "cases:precompile-call", "cases:stackfill", "cases:fault", "cases:subcall", "cases:gaswrap", "cases:createloop"},
+			"cases:rawcode", "cases:rawinit", "cases:weighted", "cases:memext", "cases:custom", "cases:recursion", "cases:precompile", "cases:precompile-call", "cases:stackfill", "cases:fault", "cases:staticchain", "expect_checked:chainstatic", "static_frame_steps", "cases:subcall", "cases:gaswrap", "cases:createloop"},
 	})
 }
 
